@@ -20,6 +20,7 @@ TRUSTED_BASE = [
     "Lean compiler+runtime executing the model definitions in pmodel during correspondence",
     "hand-written Lean model, tied to /repo by the correspondence run of this check (exhaustive only on the finite tables named in coverage.rule, sampled elsewhere)",
     "Rust harness (/verif/harness, public portus API only), Python generators/differ (/verif/tools)",
+    "translators tools/extract_tables.py (closed tables, length formulas and the decision logic of src/lib.rs; libccp's headers) and tools/extract_uid.py: regular-expression readers of the sources that emit sentinel values for anything they do not recognise - trusted to report what the files say; the theorems of Props/Tables.lean are re-checked against their output on every run of a check that lists them",
     "modelled, not verified: Rust std (slices, Vec, HashMap, String/UTF-8, integer casts, debug overflow checks), byteorder, nom 7 combinators",
 ]
 
